@@ -51,6 +51,8 @@ func c17URL(family, i int) string {
 		return "http://h.t/blog/article-" + n + ".html"
 	case 6:
 		return "http://h.t/story/page/" + n + "/"
+	case 7: // page number under a date permalink
+		return "http://h.t/2015/06/my-story/" + n
 	}
 	return ""
 }
@@ -85,8 +87,11 @@ func HarnessC17PageNumber() {
 	deco := vx.Choose("linkdeco", 5) // decoration of the link labels: 7, [7], (7), [ 7 ], ( 7 )
 	desc := vx.Choose("descending", 2) == 1
 	sep := []string{" ", " | ", "", "\n"}[vx.Choose("sep", vx.Param("seps", 4))]
-	wrap := vx.Choose("wrap", vx.Param("wraps", 3))
-	cur := vx.Choose("cur", 4)
+	wrap := vx.Choose("wrap", vx.Param("wraps", 4)) // none, list items, table cells followed by a text that starts with a number, spans
+	cur := 0
+	if deco == 0 {
+		cur = vx.Choose("cur", 4)
+	}
 	var sb strings.Builder
 	for pos := 1; pos <= N; pos++ {
 		i := pos
@@ -104,6 +109,8 @@ func HarnessC17PageNumber() {
 		case 1:
 			item = "<li>" + item + "</li>"
 		case 2:
+			item = "<td>" + item + "</td>"
+		case 3:
 			item = "<span>" + item + "</span>"
 		}
 		if pos > 1 {
@@ -114,6 +121,9 @@ func HarnessC17PageNumber() {
 	pager := sb.String()
 	if wrap == 1 {
 		pager = "<ul>" + pager + "</ul>"
+	}
+	if wrap == 2 {
+		pager = "<table><tbody><tr>" + pager + "</tr></tbody></table> 37 comments"
 	}
 	doc := vx.ParseHTML(`<html><body><div><p>Some words of the article are here.</p></div><div class="pagination">` + pager + `</div></body></html>`)
 	pageURL, _ := nurl.Parse(c17URL(family, k))
